@@ -461,6 +461,21 @@ let op_textok (args : str list) : str list =
       [ (if text_ok u then "1" else "0"); (if spell_all u = t then "1" else "0") ]
   | _ -> ["bad-args"]
 
+(* which token makes the text check fail: "<hex text>" -> kind, text, the next characters | ok *)
+let op_textwhy (args : str list) : str list =
+  match args with
+  | [h] ->
+      let t = text_of_hex h in
+      let u = List.map norm_tok (tokens_of (lex_items t)) in
+      let rec go = function
+        | [] -> ["ok"]
+        | (tk : token) :: r ->
+            let rest = spell_all r in
+            if tok_sep tk rest then go r
+            else [ kind_name tk.t_kind; hex_of_text tk.t_text; hex_of_text (List.filteri (fun i _ -> i < 4) rest) ] in
+      go u
+  | _ -> ["bad-args"]
+
 (* semantic rules on facts: one fact per argument (fields separated by ','; see harness op `facts`) ->
    one field per rule, "code@pos code@pos ..", in the order const_init const_not_fb global_const task enum_value fb_call stdlib *)
 let fact_of (w : str) : fact =
@@ -669,7 +684,7 @@ let op_lib2render (args : str list) : str list =
 
 let ops : (str * (str list -> str list)) list ref =
   ref [ ("lex", op_lex); ("semtok", op_semtok); ("decode", op_decode); ("lit", op_lit); ("cycle", op_cycle);
-        ("lsp", op_lsp); ("cli", op_cli); ("rule", op_rule); ("expr", op_expr); ("scope", op_scope); ("stmts", op_stmts); ("strender", op_strender); ("rules", op_rules); ("latebound", op_latebound); ("fbd", op_fbd); ("fbdrender", op_fbdrender); ("lib", op_lib); ("lib2", op_lib2); ("lib2render", op_lib2render); ("exprkind", op_exprkind); ("datadecl", op_datadecl); ("declrules", op_declrules); ("textrt", op_textrt); ("textok", op_textok) ]
+        ("lsp", op_lsp); ("cli", op_cli); ("rule", op_rule); ("expr", op_expr); ("scope", op_scope); ("stmts", op_stmts); ("strender", op_strender); ("rules", op_rules); ("latebound", op_latebound); ("fbd", op_fbd); ("fbdrender", op_fbdrender); ("lib", op_lib); ("lib2", op_lib2); ("lib2render", op_lib2render); ("exprkind", op_exprkind); ("datadecl", op_datadecl); ("declrules", op_declrules); ("textrt", op_textrt); ("textok", op_textok); ("textwhy", op_textwhy) ]
 
 
 let () =
